@@ -18,7 +18,7 @@ from ..calls import CallCtx, reachable_funcs
 from ..effects import Effects, get_effects
 from ..domains import RankEval, alias_class, SAME
 from ..variants import Witness
-from .common import exception_classes, is_exception_ctor, vectorizable_classes, concrete_defs
+from .common import exception_classes, is_exception_ctor, vectorizable_classes, concrete_defs, only_raises
 
 PROP = "C05"
 EXPLANATION = (
@@ -377,7 +377,32 @@ def rule_r8(p, res):
         raise AnalysisError("C05.R8: only %d _from_vector_inplace bodies (floor 10)" % n)
 
 
-RULES = [rule_r1, rule_r2, rule_r3, rule_r4, rule_r5, rule_r6, rule_r7, rule_r8]
+def rule_r9(p, res):
+    r = res.rule("C05.R9", "flattening and rebuilding use a fixed logical element order (C or F), never one that follows the memory layout of the stored array (K / A)")
+    n = 0
+    for c in p.classes.values():
+        for name in ("_as_vector", "as_vector", "from_vector", "_from_vector_inplace", "from_vector_inplace"):
+            f = c.methods.get(name)
+            if f is None or only_raises(f.node):
+                continue
+            n += 1
+            r.instance(f)
+            bad = []
+            for k in calls_in(f.node):
+                if isinstance(k.func, ast.Attribute) and k.func.attr in ("ravel", "flatten", "reshape") or (dotted(k.func) or "").split(".")[-1] in ("ravel", "reshape"):
+                    o = kwarg(k, "order")
+                    if o is not None and not (isinstance(o, ast.Constant) and o.value in ("C", "F")):  # 'C' and 'F' are fixed logical orders; 'K' / 'A' follow the memory layout
+                        bad.append(k)
+            for k in bad:
+                r.violation(f, k, "%s flattens / reshapes with order=%s: the element order then follows the memory layout of the stored array, but the inverse operation rebuilds "
+                            "in a fixed order, so a Fortran-ordered or transposed matrix does not survive as_vector / from_vector" % (f.short, norm(kwarg(k, "order"))))
+            if not bad:
+                r.ok()
+    if n < 20:
+        raise AnalysisError("C05.R9: only %d vectorisation methods found (floor 20)" % n)
+
+
+RULES = [rule_r1, rule_r2, rule_r3, rule_r4, rule_r5, rule_r6, rule_r7, rule_r8, rule_r9]
 
 WITNESSES = [
     Witness("C05.W1", "menpo/transform/homogeneous/similarity.py", "Similarity._from_vector_inplace",
@@ -406,4 +431,9 @@ WITNESSES = [
             "self._set_h_matrix(homog, skip_checks=True, copy=False)", "self._set_h_matrix(homog, copy=False, skip_checks=True)", kind="T"),
     Witness("C05.T2", "menpo/shape/pointcloud.py", "PointCloud._as_vector",
             "return self.points.ravel()", "flat = self.points.ravel()\n    return flat", kind="T"),
+]
+
+WITNESSES += [
+    Witness("C05.W13", "menpo/transform/homogeneous/base.py", "Homogeneous._as_vector", "self.h_matrix.ravel()", "self.h_matrix.ravel(order='K')", rule="C05.R9", construct="Homogeneous._as_vector", note="seeded change R4-C05-B"),
+    Witness("C05.T3", "menpo/transform/homogeneous/base.py", "Homogeneous._as_vector", "self.h_matrix.ravel()", "self.h_matrix.ravel(order='C')", kind="T"),
 ]
